@@ -68,6 +68,12 @@ def struct_shape(st):
         if f.virtual:
             if f.virtual[0] == "alias":
                 tgt = by_name[f.virtual[1]]
+                while tgt.virtual and tgt.virtual[0] == "alias":
+                    tgt = by_name[tgt.virtual[1]]            # alias of an alias
+                if tgt.virtual:
+                    if tgt.virtual[0] == "expr" and tgt.virtual[4]:
+                        raise NoShape()      # alias of a writable `x + k`: codec type not tracked
+                    continue                 # alias of a read-only field: read-only, comment only
                 fields.append((f.name, ftype_shape(tgt.ftype)))
             elif f.virtual[4]:
                 # `x + k`: writable through the inverse; the text codec type of virtual fields is not
